@@ -105,11 +105,14 @@ func main() {
 	}
 	ctx := &Ctx{Prop: *prop, Tier: *tier, Seed: *seed, R: rand.New(rand.NewPCG(*seed, h)),
 		w: bufio.NewWriterSize(of, 1<<20), Stats: map[string]int{}, Tmp: *tmp}
-	if *replay != "" {
-		replayFile(ctx, *replay)
-	} else {
-		f(ctx)
-	}
+	func() {
+		defer reportCrash()
+		if *replay != "" {
+			replayFile(ctx, *replay)
+		} else {
+			f(ctx)
+		}
+	}()
 	ctx.w.Flush()
 	sb, _ := json.Marshal(ctx.Stats)
 	fmt.Fprintf(os.Stderr, "STATS %s\n", sb)
